@@ -174,6 +174,15 @@ def extract_prints(out, tag='HV'):
     return res
 
 
+def _die_with_parent():
+    """a TLC whose checking process is killed must not keep running (Linux: PR_SET_PDEATHSIG = SIGKILL)"""
+    try:
+        import ctypes, signal
+        ctypes.CDLL('libc.so.6', use_errno=True).prctl(1, signal.SIGKILL)
+    except Exception:
+        pass
+
+
 def run(module_dir, module, cfg=None, workers=None, timeout=600, heap='8g', coverage=False,
         simulate=None, depth=None, deque=False, extra=(), tag='HV', deadlock=False, seed=None):
     """Run TLC on module_dir/module.tla with module_dir/<cfg or module>.cfg."""
@@ -196,7 +205,8 @@ def run(module_dir, module, cfg=None, workers=None, timeout=600, heap='8g', cove
     cmd.append(os.path.join(module_dir, module + '.tla'))
     t0 = time.time()
     try:
-        p = subprocess.run(cmd, stdout=subprocess.PIPE, stderr=subprocess.STDOUT, timeout=timeout, cwd=module_dir)
+        p = subprocess.run(cmd, stdout=subprocess.PIPE, stderr=subprocess.STDOUT, timeout=timeout, cwd=module_dir,
+                           preexec_fn=_die_with_parent)
         r.out = p.stdout.decode('utf-8', 'replace')
         r.rc = p.returncode
     except subprocess.TimeoutExpired as e:
